@@ -12,11 +12,13 @@ import (
 	"log"
 	"os"
 	"os/exec"
+	"path/filepath"
 	"runtime"
 	"runtime/debug"
 	"strconv"
 	"strings"
 	"sync"
+	"sync/atomic"
 	"time"
 
 	"github.com/sharedcode/sop"
@@ -357,7 +359,7 @@ func (d plDec) Remove(ctx context.Context, tid sop.UUID) error {
 // ---- a real transaction on a scratch folder ---------------------------------------------------------------
 
 // one process-wide L2 cache, as in a real single-process deployment (the L1 cache is a process-wide singleton
-// bound to the first L2 it sees). Cases are isolated by a fresh folder and store name each.
+// bound to the first L2 it sees). Cases are isolated by a folder each whose name is never reused within the process (freshDir): the caches key store infos by folder path.
 var l2 = cache.NewL2InMemoryCache()
 
 const storeName = "s14"
@@ -617,6 +619,28 @@ func scratchRoot() string {
 	return hx.WorkRoot()
 }
 
+// freshDir makes the scratch folder of one case. Its name is NEVER reused within this process (pid + counter): the L2 cache
+// and the L1 singletons are process-wide and key store infos by folder path, so a reused name would hand a later case the
+// cached store of an earlier one (os.MkdirTemp draws 32-bit random suffixes: with ~200k cases per worker process a name
+// comes back a few times per thorough run; the one time the stale StoreInfo had not been evicted yet, the setup of
+// `write one: begin newbtree close find rollback commit` found "its" store in the cache, never wrote the store list, and
+// the cold reader rightly saw no store — a false alarm of this harness, fixed here).
+var caseSeq int64
+
+func freshDir() (string, error) {
+	for {
+		d := filepath.Join(scratchRoot(), fmt.Sprintf("c14-%d-%d", os.Getpid(), atomic.AddInt64(&caseSeq, 1)))
+		err := os.Mkdir(d, 0o755)
+		if err == nil {
+			return d, nil
+		}
+		if !os.IsExist(err) {
+			return "", err
+		}
+		// a leftover of a dead process that had this pid: never share it
+	}
+}
+
 // ---- one case ---------------------------------------------------------------------------------------------
 
 type failure struct {
@@ -630,6 +654,30 @@ type caseResult struct {
 	Fails      []failure `json:"fails"`
 	Nontrivial bool      `json:"nt"`
 	Err        string    `json:"err,omitempty"`
+	Diag       string    `json:"diag,omitempty"`
+}
+
+// diagDir lists the scratch folder (names, sizes) and the store list's content
+func diagDir(dir string) string {
+	var sb strings.Builder
+	if _, err := os.Stat(dir); err != nil {
+		return "dir: " + err.Error()
+	}
+	filepath.Walk(dir, func(p string, fi os.FileInfo, err error) error {
+		if err != nil {
+			sb.WriteString(p + ": " + err.Error() + "; ")
+			return nil
+		}
+		rel, _ := filepath.Rel(dir, p)
+		sb.WriteString(fmt.Sprintf("%s(%d) ", rel, fi.Size()))
+		return nil
+	})
+	if b, err := os.ReadFile(filepath.Join(dir, "storelist.txt")); err == nil {
+		sb.WriteString("| storelist=" + string(b))
+	} else {
+		sb.WriteString("| storelist: " + err.Error())
+	}
+	return sb.String()
 }
 
 func isStoreLevel(op string) bool {
@@ -721,7 +769,7 @@ func fxOf(op string, fired []string) []string {
 func runCase(ctx context.Context, mode, init string, ops []string) (res caseResult) {
 	fail := func(sig, what, detail string) { res.Fails = append(res.Fails, failure{sig, what, detail}) }
 	hit := func(k string) { res.Hits = append(res.Hits, k) }
-	dir, err := os.MkdirTemp(scratchRoot(), "c14-")
+	dir, err := freshDir()
 	if err != nil {
 		res.Err = err.Error()
 		return
@@ -746,6 +794,7 @@ func runCase(ctx context.Context, mode, init string, ops []string) (res caseResu
 		// failures
 		faultFired   bool // some injected failure took effect in this case (from then on: what is on disk is not diffed)
 		faultPlanned bool
+		srRemSeen    bool
 		anyFired     bool // including a failing direct Close (which blurs nothing)
 
 		// the spec-level end of the transaction: the first Rollback or Commit (or Phase2Commit after a successful Phase1Commit)
@@ -767,6 +816,11 @@ func runCase(ctx context.Context, mode, init string, ops []string) (res caseResu
 		r, rDetail := x.do(ctx, dir, op)
 		fired := x.r.disarm()
 		w := x.r.take()
+		for _, k := range w {
+			if k == "sr.rem" {
+				srRemSeen = true
+			}
+		}
 		pd, com, ls := common.VerifC14State(x.tp)
 		okRes := strings.HasPrefix(r, "ok")
 		hit("op:" + op)
@@ -1021,6 +1075,11 @@ func runCase(ctx context.Context, mode, init string, ops []string) (res caseResu
 		res.Outs = append(res.Outs, "*") // what a failed piece of work leaves on disk is not the lifecycle model's subject
 	} else {
 		res.Outs = append(res.Outs, after)
+	}
+	// self-diagnosis: the cold reader finds a pre-existing store gone although this transaction never issued StoreRepository.Remove
+	if init != "absent" && afterFull == "absent" && !srRemSeen {
+		hit("diag_store_gone_without_remove")
+		res.Diag = diagDir(dir)
 	}
 	// (A) nothing is persisted after the end of the transaction
 	if haveEndSnap && afterFull != endSnap {
@@ -1543,6 +1602,9 @@ func emit(s *hx.Session, c spec, r caseResult) {
 	}
 	if r.Nontrivial {
 		s.Nontrivial()
+	}
+	if r.Diag != "" {
+		s.Fail("C14/harness-diag-store-gone-without-remove", "harness self-diagnosis: a pre-existing store is gone for the cold reader although the transaction issued no StoreRepository.Remove", c.line()+" :: "+r.Diag)
 	}
 	for _, f := range r.Fails {
 		// hx keeps the first 200 failures only: record at most 5 per signature so that thousands of instances of a
